@@ -1,7 +1,459 @@
 package sim
 
+import (
+	"fmt"
+	"sort"
+	"strings"
+)
+
+// DecoratorResourceRule is one spec.resources entry.
+type DecoratorResourceRule struct {
+	Res                *Resource
+	LabelSelector      Object
+	AnnotationSelector Object
+	IgnoreStatus       bool
+}
+
 // DecoratorCfg describes one DecoratorController object.
 type DecoratorCfg struct {
 	Name          string
+	Resources     []DecoratorResourceRule
+	Attachments   []ChildRule
+	Finalize      bool
+	Customize     bool
 	ResyncSeconds int
+	Ver           int
+	NoHooks       bool
+}
+
+func (c *DecoratorCfg) Object() Object {
+	var rs []interface{}
+	for _, r := range c.Resources {
+		o := Object{"apiVersion": r.Res.APIVersion(), "resource": r.Res.Plural}
+		if r.LabelSelector != nil {
+			o["labelSelector"] = r.LabelSelector
+		}
+		if r.AnnotationSelector != nil {
+			o["annotationSelector"] = r.AnnotationSelector
+		}
+		if r.IgnoreStatus {
+			o["ignoreStatusChanges"] = true
+		}
+		rs = append(rs, o)
+	}
+	var as []interface{}
+	for _, a := range c.Attachments {
+		o := Object{"apiVersion": a.Res.APIVersion(), "resource": a.Res.Plural}
+		if a.Method != "" {
+			o["updateStrategy"] = Object{"method": a.Method}
+		}
+		as = append(as, o)
+	}
+	spec := Object{"resources": rs}
+	if len(as) > 0 {
+		spec["attachments"] = as
+	}
+	if !c.NoHooks {
+		hooks := Object{"sync": webhook(c.Name, "sync", c.Ver, false, false, 0)}
+		if c.Finalize {
+			hooks["finalize"] = webhook(c.Name, "finalize", c.Ver, false, false, 0)
+		}
+		if c.Customize {
+			hooks["customize"] = webhook(c.Name, "customize", c.Ver, false, false, 0)
+		}
+		spec["hooks"] = hooks
+	}
+	if c.ResyncSeconds > 0 {
+		spec["resyncPeriodSeconds"] = int64(c.ResyncSeconds)
+	}
+	return Object{"apiVersion": "metacontroller.k8s.io/v1alpha1", "kind": "DecoratorController", "metadata": Object{"name": c.Name}, "spec": spec}
+}
+
+func (c *DecoratorCfg) FinalizerName() string { return "metacontroller.io/decoratorcontroller-" + c.Name }
+func (c *DecoratorCfg) QueueName() string     { return "DecoratorController-" + c.Name }
+func (c *DecoratorCfg) Marker() (string, string) {
+	return "metacontroller.k8s.io/decorator-controller", c.Name
+}
+
+func (c *DecoratorCfg) AttachmentRule(res *Resource) *ChildRule {
+	for i := range c.Attachments {
+		if c.Attachments[i].Res == res {
+			return &c.Attachments[i]
+		}
+	}
+	return nil
+}
+
+func (c *DecoratorCfg) ResourceRule(res *Resource) *DecoratorResourceRule {
+	for i := range c.Resources {
+		if c.Resources[i].Res == res {
+			return &c.Resources[i]
+		}
+	}
+	return nil
+}
+
+// Selects reports whether the decorator's rule for the object's resource selects it.
+func (c *DecoratorCfg) Selects(res *Resource, o Object) bool {
+	r := c.ResourceRule(res)
+	if r == nil {
+		return false
+	}
+	if r.LabelSelector != nil && !selectorMatches(r.LabelSelector, labelsOf(o)) {
+		return false
+	}
+	if r.AnnotationSelector != nil {
+		sel := Object{"matchLabels": r.AnnotationSelector["matchAnnotations"], "matchExpressions": r.AnnotationSelector["matchExpressions"]}
+		if !selectorMatches(sel, annotationsOf(o)) {
+			return false
+		}
+	}
+	return true
+}
+
+// DecorateProgram is the hook program family for decorators. Everything it does is
+// a function of the target object: spec.decorate.{labels,annotations,statusMode},
+// spec.replicas (number of attachments) and spec.color.
+type DecorateProgram struct {
+	Kinds []*Resource
+	Tag   string // distinguishes several decorators on one target
+}
+
+func (dp *DecorateProgram) attachments(req Object) []Object {
+	obj := getMap(req, "object")
+	n := int(getInt(obj, "spec", "replicas"))
+	var out []Object
+	for ki, k := range dp.Kinds {
+		for i := 0; i < n; i++ {
+			name := fmt.Sprintf("%s-%s%d-%d", mstr(obj, "name"), dp.Tag, ki, i)
+			md := Object{"name": name, "labels": Object{"decorated-by": dp.Tag}}
+			o := Object{"apiVersion": k.APIVersion(), "kind": k.Kind, "metadata": md,
+				childContentField(k): Object{"color": getPath(obj, "spec", "color"), "idx": int64(i)}}
+			if k.Namespaced && mstr(obj, "namespace") == "" {
+				md["namespace"] = "ns1"
+			}
+			out = append(out, o)
+		}
+	}
+	return out
+}
+
+func (dp *DecorateProgram) Sync(req Object) Object {
+	obj := getMap(req, "object")
+	resp := Object{"attachments": toList(dp.attachments(req))}
+	dec := getMap(obj, "spec", "decorate")
+	if l := getMap(dec, "labels"); l != nil {
+		resp["labels"] = l
+	}
+	if a := getMap(dec, "annotations"); a != nil {
+		resp["annotations"] = a
+	}
+	switch getStr(dec, "statusMode") {
+	case "", "null":
+	default:
+		total := 0
+		for _, k := range dp.Kinds {
+			total += len(observedOf(req, "attachments", k))
+		}
+		resp["status"] = Object{"decorated": dp.Tag, "attachments": int64(total), "mode": getStr(dec, "statusMode")}
+	}
+	return resp
+}
+
+func (dp *DecorateProgram) Finalize(req Object) Object {
+	total := 0
+	for _, k := range dp.Kinds {
+		total += len(observedOf(req, "attachments", k))
+	}
+	resp := dp.Sync(req)
+	resp["attachments"] = []interface{}{}
+	resp["finalized"] = total == 0
+	return resp
+}
+
+// DSetup is a generated decorator scenario.
+type DSetup struct {
+	W       *World
+	Cfgs    []*DecoratorCfg
+	Progs   Programs
+	Targets []ParentRef
+	Opts    *BootOptions
+	Sig     map[string]string
+}
+
+// NewTarget renders a decorator target.
+func NewTarget(res *Resource, ns, name string, replicas int, lbls, anns map[string]string) Object {
+	md := Object{"name": name}
+	if res.Namespaced {
+		md["namespace"] = ns
+	}
+	if len(lbls) > 0 {
+		l := Object{}
+		for k, v := range lbls {
+			l[k] = v
+		}
+		md["labels"] = l
+	}
+	if len(anns) > 0 {
+		a := Object{}
+		for k, v := range anns {
+			a[k] = v
+		}
+		md["annotations"] = a
+	}
+	content := "spec"
+	if res == ResConfigMap {
+		content = "data"
+	}
+	o := Object{"apiVersion": res.APIVersion(), "kind": res.Kind, "metadata": md,
+		content: Object{"replicas": int64(replicas), "color": "c0", "own": "user-data",
+			"decorate": Object{"labels": Object{"added": "yes"}, "annotations": Object{"note": "by-hook"}, "statusMode": "set"}}}
+	return o
+}
+
+type DGenOpts struct {
+	MaxDecorators int
+	Finalize      int // 0 draw, 1 always, -1 never
+	MaxWorkers    int
+	TargetKinds   []*Resource
+}
+
+// NewDecoratorSetup draws 1-2 decorators sharing targets, with selectors and attachments.
+func NewDecoratorSetup(w *World, g DGenOpts) *DSetup {
+	t := w.T
+	InstallUniverse(w)
+	ds := &DSetup{W: w, Progs: Programs{}, Opts: &BootOptions{}}
+	kinds := g.TargetKinds
+	if len(kinds) == 0 {
+		kinds = []*Resource{ResTarget, ResBareTarget}
+	}
+	tres := kinds[t.Pick(len(kinds), "targetkind")]
+	nd := 1
+	if g.MaxDecorators > 1 {
+		nd = 1 + t.Pick(g.MaxDecorators, "ndecorators")
+	}
+	attKinds := []*Resource{ResConfigMap, ResWidget, ResGadget}
+	for i := 0; i < nd; i++ {
+		c := &DecoratorCfg{Name: fmt.Sprintf("dc%d", i), Ver: 1}
+		rule := DecoratorResourceRule{Res: tres}
+		switch t.Pick(4, "dsel") {
+		case 1:
+			rule.LabelSelector = Object{"matchLabels": Object{"decorate": "yes"}}
+		case 2:
+			rule.AnnotationSelector = Object{"matchAnnotations": Object{"decorate": "yes"}}
+		case 3:
+			rule.LabelSelector = Object{"matchExpressions": []interface{}{Object{"key": "decorate", "operator": "In", "values": []interface{}{"yes", "also"}}}}
+			rule.AnnotationSelector = Object{"matchExpressions": []interface{}{Object{"key": "skip", "operator": "DoesNotExist"}}}
+		}
+		c.Resources = []DecoratorResourceRule{rule}
+		ak := attKinds[t.Pick(len(attKinds), "attkind")]
+		c.Attachments = []ChildRule{{Res: ak, Method: []string{"InPlace", "", "Recreate", "OnDelete"}[t.Pick(4, "attmethod")]}}
+		switch g.Finalize {
+		case 0:
+			c.Finalize = t.Pick(3, "dfinalize") == 2
+		case 1:
+			c.Finalize = true
+		}
+		if t.Pick(4, "dresync") == 3 {
+			c.ResyncSeconds = 5 + 10*t.Pick(3, "dresyncs")
+		}
+		ds.Cfgs = append(ds.Cfgs, c)
+		ds.Opts.Decorators = append(ds.Opts.Decorators, c)
+		dp := &DecorateProgram{Kinds: []*Resource{ak}, Tag: c.Name}
+		ds.Progs[c.Name] = &Program{Sync: dp.Sync, Finalize: dp.Finalize}
+		mustCreate(w.Store, ResDecoratorCtl, "", c.Object(), "setup")
+	}
+	mw := g.MaxWorkers
+	if mw == 0 {
+		mw = 2
+	}
+	ds.Opts.Proc.Workers = 1 + t.Pick(mw, "workers")
+	w.HookProgram = ds.Progs.Answer
+	StandardBoot(w, ds.Opts)
+	nt := 1 + t.Pick(3, "ntargets")
+	for i := 0; i < nt; i++ {
+		name := fmt.Sprintf("t%d", i)
+		ns := Namespaces[t.Pick(2, "tns")]
+		lbls, anns := map[string]string{"own-label": "keep"}, map[string]string{"own-annotation": "keep"}
+		switch t.Pick(4, "tsel") {
+		case 0:
+			lbls["decorate"] = "yes"
+			anns["decorate"] = "yes"
+		case 1:
+			lbls["decorate"] = "yes"
+		case 2:
+			anns["decorate"] = "yes"
+			anns["skip"] = "1"
+		}
+		o := NewTarget(tres, ns, name, t.Pick(3, "treplicas"), lbls, anns)
+		if t.Pick(3, "foreignfin") == 2 {
+			setPath(o, []interface{}{"example.com/foreign"}, "metadata", "finalizers")
+		}
+		mustCreate(w.Store, tres, ns, o, "user")
+		ds.Targets = append(ds.Targets, ParentRef{tres, ns, name})
+	}
+	ds.Sig = map[string]string{"controller": "decorator", "target": tres.Kind, "statusSubresource": fmt.Sprint(tres.Status), "decorators": fmt.Sprint(nd)}
+	w.Cfg["target"] = tres.Kind
+	w.Cfg["decorators"] = fmt.Sprint(nd)
+	w.Cfg["workers"] = fmt.Sprint(ds.Opts.Proc.Workers)
+	var desc []string
+	for _, c := range ds.Cfgs {
+		desc = append(desc, fmt.Sprintf("%s:%s:%s fin=%v", c.Name, c.Attachments[0].Res.Kind, c.Attachments[0].Method, c.Finalize))
+	}
+	sort.Strings(desc)
+	w.Cfg["dcs"] = strings.Join(desc, " ")
+	return ds
+}
+
+func contentField(res *Resource) string {
+	if res == ResConfigMap || res == ResSecret {
+		return "data"
+	}
+	return "spec"
+}
+
+// TargetEdits offers user edits of the targets: decoration parameters, selectors, spec.
+func (ds *DSetup) TargetEdits(b *EnvBudget) []EnvOp {
+	if b.Left <= 0 {
+		return nil
+	}
+	var ops []EnvOp
+	for _, p := range ds.Targets {
+		p := p
+		if p.Get(ds.W) == nil {
+			continue
+		}
+		f := contentField(p.Res)
+		ops = append(ops,
+			EnvOp{"t-labels " + p.Name, func(w *World) {
+				b.take()
+				variants := []Object{
+					{"added": "yes", "extra": fmt.Sprint(w.step)},
+					{"added": nil, "own-label": nil},
+					{"own-label": "overwritten"},
+					{},
+				}
+				v := variants[w.T.Pick(len(variants), "labelvariant")]
+				EditObject(w, p.Res, p.NS, p.Name, "user", func(o Object) {
+					setPath(o, v, f, "decorate", "labels")
+					setPath(o, v, f, "decorate", "annotations")
+				})
+			}},
+			EnvOp{"t-statusmode " + p.Name, func(w *World) {
+				b.take()
+				m := []string{"null", "set", "other"}[w.T.Pick(3, "statusmode")]
+				EditObject(w, p.Res, p.NS, p.Name, "user", func(o Object) { setPath(o, m, f, "decorate", "statusMode") })
+			}},
+			EnvOp{"t-recolor " + p.Name, func(w *World) {
+				b.take()
+				EditObject(w, p.Res, p.NS, p.Name, "user", func(o Object) { setPath(o, fmt.Sprintf("c%d", w.step), f, "color") })
+			}},
+			EnvOp{"t-rescale " + p.Name, func(w *World) {
+				b.take()
+				n := w.T.Pick(3, "treplicas2")
+				EditObject(w, p.Res, p.NS, p.Name, "user", func(o Object) { setPath(o, int64(n), f, "replicas") })
+			}},
+			EnvOp{"t-select " + p.Name, func(w *World) {
+				b.take()
+				on := w.T.Pick(2, "selecton") == 1
+				EditObject(w, p.Res, p.NS, p.Name, "user", func(o Object) {
+					if on {
+						setPath(o, "yes", "metadata", "labels", "decorate")
+						setPath(o, "yes", "metadata", "annotations", "decorate")
+						delete(getMap(o, "metadata", "annotations"), "skip")
+					} else {
+						delete(getMap(o, "metadata", "labels"), "decorate")
+						delete(getMap(o, "metadata", "annotations"), "decorate")
+					}
+				})
+			}},
+			EnvOp{"t-userstatus " + p.Name, func(w *World) {
+				b.take()
+				EditStatus(w, p.Res, p.NS, p.Name, "other-controller", func(o Object) { setPath(o, fmt.Sprint(w.step), "status", "foreign") })
+			}},
+			EnvOp{"t-delete " + p.Name, func(w *World) {
+				b.take()
+				w.Store.Delete(p.Res, p.NS, p.Name, DeleteOpts{Propagation: []string{"Background", "Foreground", "Orphan"}[w.T.Pick(3, "tprop")]}, "user")
+			}},
+			EnvOp{"t-replace " + p.Name, func(w *World) {
+				// deleted (dependents orphaned or not yet collected) and re-created under the same name
+				b.take()
+				old := p.Get(w)
+				if old == nil {
+					return
+				}
+				EditObject(w, p.Res, p.NS, p.Name, "user", func(o Object) { delete(meta(o), "finalizers") })
+				w.Store.Delete(p.Res, p.NS, p.Name, DeleteOpts{}, "user")
+				if p.Get(w) != nil {
+					return
+				}
+				n := Object{"apiVersion": old["apiVersion"], "kind": old["kind"],
+					"metadata": Object{"name": p.Name, "namespace": p.NS, "labels": metaRO(old)["labels"], "annotations": metaRO(old)["annotations"]}, f: old[f]}
+				w.Store.Create(p.Res, p.NS, n, "user")
+			}},
+			EnvOp{"t-unfinalize " + p.Name, func(w *World) {
+				b.take()
+				EditObject(w, p.Res, p.NS, p.Name, "user", func(o Object) { removeFinalizer(o, "example.com/foreign") })
+			}},
+		)
+	}
+	return ops
+}
+
+// AttachmentChaos offers other writers' operations on objects of the attachment kinds.
+func (ds *DSetup) AttachmentChaos(b *EnvBudget) []EnvOp {
+	if b.Left <= 0 {
+		return nil
+	}
+	w := ds.W
+	var ops []EnvOp
+	seen := map[*Resource]bool{}
+	for _, c := range ds.Cfgs {
+		for _, a := range c.Attachments {
+			if seen[a.Res] {
+				continue
+			}
+			seen[a.Res] = true
+			res := a.Res
+			for _, o := range w.Store.List(res, "") {
+				ns, name := mstr(o, "namespace"), mstr(o, "name")
+				id := res.Kind + "/" + ns + "/" + name
+				ops = append(ops,
+					EnvOp{"a-delete " + id, func(w *World) { b.take(); w.Store.Delete(res, ns, name, DeleteOpts{}, "user") }},
+					EnvOp{"a-drift " + id, func(w *World) {
+						b.take()
+						EditObject(w, res, ns, name, "user", func(o Object) { setPath(o, "drift", childContentField(res), "color") })
+					}},
+					EnvOp{"a-unmark " + id, func(w *World) {
+						b.take()
+						EditObject(w, res, ns, name, "user", func(o Object) {
+							delete(getMap(o, "metadata", "annotations"), "metacontroller.k8s.io/decorator-controller")
+						})
+					}},
+				)
+			}
+			// attachments made by someone else for the same target: no marker / another marker
+			for _, p := range ds.Targets {
+				p := p
+				po := p.Get(w)
+				if po == nil {
+					continue
+				}
+				ops = append(ops, EnvOp{"a-foreign-attachment " + p.Name + " " + res.Kind, func(w *World) {
+					b.take()
+					po := p.Get(w)
+					if po == nil {
+						return
+					}
+					ns := p.NS
+					md := Object{"name": fmt.Sprintf("%s-foreign-%d", p.Name, w.step), "ownerReferences": []interface{}{ownerRefObj(po, true)}}
+					if w.T.Pick(2, "othermarker") == 1 {
+						md["annotations"] = Object{"metacontroller.k8s.io/decorator-controller": "someone-else"}
+					}
+					w.Store.Create(res, ns, Object{"metadata": md, childContentField(res): Object{"color": "foreign"}}, "user")
+				}})
+			}
+		}
+	}
+	return ops
 }
